@@ -174,13 +174,19 @@ def train(exp_dir, grads, batches, num_iterations, k=1, clip=0.0, lr=0.5, opt="s
 
     def rec_step(*a, **kw):
         lrs.append([float(optimizer.param_groups[0]["lr"]), float(model.w.grad.item()) if model.w.grad is not None else None])
-        return orig_step(*a, **kw)
+        r_ = orig_step(*a, **kw)
+        if kill_kind == "kill-in-step" and kill_at is not None and len(lrs) - 1 == kill_at:
+            # the interrupt arrives after the iteration's forward / backward pass, while the optimiser step completes
+            from direct.exceptions import ProcessKilledException
+
+            raise ProcessKilledException(2, "SIGINT")
+        return r_
 
     optimizer.step = rec_step
     _FixedBatches.batches = batches
     old = E.ConcatDatasetBatchSampler
     E.ConcatDatasetBatchSampler = _FixedBatches
-    TinyEngine.kill_at = kill_at
+    TinyEngine.kill_at = kill_at if kill_kind != "kill-in-step" else None
     TinyEngine.kill_kind = kill_kind
     TinyEngine.lazy = lazy_batches
     _FixedBatches.start = 0
@@ -201,6 +207,10 @@ def train(exp_dir, grads, batches, num_iterations, k=1, clip=0.0, lr=0.5, opt="s
             if kill_kind != "runtime" or "simulated failure" not in str(e):
                 raise
             exited = "runtime-error"
+        except BaseException as e:  # noqa
+            if type(e).__name__ != "ProcessKilledException" or kill_kind != "kill-in-step":
+                raise
+            exited = "killed-outside-iteration"
     finally:
         E.ConcatDatasetBatchSampler = old
         TinyEngine.kill_at = None
